@@ -43,7 +43,9 @@ def one_property(prop):
                 res["result"] = "patch no longer applies to /repo HEAD (the code it edited was changed by a later repair)"
             else:
                 env = dict(os.environ, PYTHONPATH=str(wt / "src"))
-                d = sh(["/venv/bin/python", str(sd / "demo.py")], cwd=str(wt), env=env)
+                demo = sd / "demo.r4.py" if (sd / "demo.r4.py").exists() else sd / "demo.py"  # adapted to the repaired library
+                res["demo"] = demo.name
+                d = sh(["/venv/bin/python", str(demo)], cwd=str(wt), env=env)
                 res["demo_fails"] = d.returncode != 0
                 # which check is expected to catch it (the seed's own property unless meta says another check does)
                 checks = [prop]
@@ -76,7 +78,7 @@ def one_property(prop):
 def main():
     props = sys.argv[1:] or sorted({d.name.split("-")[0] for d in SEEDED.iterdir() if d.is_dir()})
     allres = {}
-    mp = SEEDED / "MATRIX.json"
+    mp = Path(os.environ["MATRIX_OUT"]) if os.environ.get("MATRIX_OUT") else SEEDED / "MATRIX.json"  # partial results of one checkout
     if mp.exists():
         allres = json.loads(mp.read_text())
     with ThreadPoolExecutor(max_workers=int(os.environ.get('MATRIX_JOBS', '4'))) as ex:  # one checkout shares Generated/*.lean: use MATRIX_JOBS=1 per checkout and several checkouts
